@@ -2,7 +2,7 @@
    option, unit, list, prod, sumbool, sumor map to the OCaml types; N, Z,
    positive, nat stay the extracted inductives. No Extract Constant. *)
 From Coq Require Import Extraction ExtrOcamlBasic.
-Require Import Base Value PrintOptions Printer Sink Float NumberOps ListOps.
+Require Import Base Value PrintOptions Printer Sink Float NumberOps ListOps ParseOptions Utf8 Reader Scan Num Parser.
 
 Extraction "model.ml"
   s2b beq_bytes value_eqb build vlist
@@ -14,4 +14,8 @@ Extraction "model.ml"
   kind_predicates as_str as_symbol as_keyword as_name as_bytes as_bool as_char as_i64 as_u64 as_f64
   is_i64 is_u64 is_f64 value_from_prim value_eq_prim prim_eq_value f32_of_bits num_from_f64
   value_append value_list cons_to_vec cons_into_vec into_iter_items iter_cells value_to_vec
-  list_iter_next drain value_list_iter get_usize get_str get_value index_or_nil is_list is_dotted_list.
+  list_iter_next drain value_list_iter get_usize get_str get_value index_or_nil is_list is_dotted_list
+  dec_to_f64 utf8_valid utf8_encode is_scalar
+  default_ro elisp_ro new_ro all_ro mk_reader bytes_events init_state fuel_for
+  from_trait datum_from_trait next_value next_datum expect_value expect_datum expect_end
+  run_history iterate_values iterate_datums classify classify_code.
